@@ -41,10 +41,15 @@ KEYS = [
     ("db.name", "str"),
     ("db.pool_size", "i64"),
     ("db.timeout_ms", "u64"),
+    # list-valued keys: defined in the *files* only (never in the environment). A list is a value like any
+    # other: the highest-precedence source that defines the key provides the whole list, element for element.
+    ("tags", "list_str"),
+    ("server.allowed_origins", "list_str"),
 ]
 KEY_TYPE = dict(KEYS)
+LIST_KEYS = [k for k, t in KEYS if t.startswith("list")]
 LENIENT_OPTIONAL = {"top": None, "workers": 424242, "server.host": None, "server.tls.cert": None,
-                    "db.pool_size": None}
+                    "db.pool_size": None, "tags": [], "server.allowed_origins": None}
 SRC = ["env", "profile", "base"]  # precedence order, strongest first
 VARIANTS = ["strict", "plain", "lenient"]
 
@@ -81,9 +86,13 @@ class Rng:
 ALNUM = "abcdefghijklmnopqrstuvwxyz0123456789"
 
 
-def gen_value(rng, typ, src_tag, used):
+def gen_value(rng, typ, src_tag, used, length=None):
     """A plain token / integer, distinct from every other value in the case. Strings start with the
-    source letter followed by 'x' so they can never be read as a number / bool / float by figment or YAML."""
+    source letter followed by 'x' so they can never be read as a number / bool / float by figment or YAML.
+    Lists have 0..3 such tokens (all elements distinct from every other token of the case)."""
+    if typ == "list_str":
+        n = rng.below(4) if length is None else length
+        return [gen_value(rng, "str", src_tag, used) for _ in range(n)]
     while True:
         if typ == "str":
             n = 3 + rng.below(6)
@@ -118,12 +127,18 @@ def get_path(d, path):
     return ("v", d)
 
 
-def to_yaml(d, indent=0):
+def to_yaml(d, indent=0, block_lists=False):
     out = []
     for k, v in d.items():
         if isinstance(v, dict):
             out.append("%s%s:" % ("  " * indent, k))
-            out.append(to_yaml(v, indent + 1))
+            out.append(to_yaml(v, indent + 1, block_lists))
+        elif isinstance(v, list):
+            if block_lists and v:
+                out.append("%s%s:" % ("  " * indent, k))
+                out += ["%s- %s" % ("  " * (indent + 1), e) for e in v]
+            else:
+                out.append("%s%s: [%s]" % ("  " * indent, k, ", ".join(str(e) for e in v)))
         else:
             out.append("%s%s: %s" % ("  " * indent, k, v))
     return "\n".join(out)
@@ -135,25 +150,29 @@ def env_name(key):
 
 # ------------------------------------------------------------------------------------------ cases
 
-def make_case(rng, idx, variant, assign, profile_mode, dir_mode, exhaustive=False):
-    """assign: {key: frozenset of sources}."""
+def make_case(rng, idx, variant, assign, profile_mode, dir_mode, exhaustive=False, list_lens=None):
+    """assign: {key: frozenset of sources}. list_lens: optional {key: {source: length}} for list keys."""
     used = set()
     vals = {}
     for k, typ in KEYS:
-        vals[k] = {s: gen_value(rng, typ, s[0], used) for s in SRC if s in assign.get(k, ())}
+        srcs = [s for s in SRC if s in assign.get(k, ())]
+        if typ.startswith("list"):
+            srcs = [s for s in srcs if s != "env"]  # lists live in the files only
+        vals[k] = {s: gen_value(rng, typ, s[0], used, (list_lens or {}).get(k, {}).get(s)) for s in srcs}
     profile = rng.pick(PROFILES)
     other = rng.pick([p for p in PROFILES if p != profile])
     if dir_mode == "rel_shadowing_complete" and not all(any(s in assign.get(k, ()) for k, _ in KEYS) for s in ("profile", "base")):
         # the first-hit directory would lack a file: that is the `split_*` class, keep the classes apart
         dir_mode = "rel_parent"
-    case = {"idx": idx, "variant": variant, "assign": {k: sorted(v) for k, v in assign.items()},
-            "vals": vals, "profile": profile, "profile_mode": profile_mode, "dir_mode": dir_mode,
+    case = {"idx": idx, "variant": variant, "assign": {k: sorted(vals[k]) for k, _ in KEYS},
+            "vals": vals, "block_lists": bool(rng.chance(1, 2)), "profile": profile, "profile_mode": profile_mode, "dir_mode": dir_mode,
             "exhaustive": exhaustive}
     # decoy values: what the *other* profile's file / a shadowed directory would provide
     decoy = {}
     for k, typ in KEYS:
         if rng.chance(2, 3):
-            decoy[k] = gen_value(rng, typ, "z", used)
+            # (decoy lists are never empty: an empty list would be indistinguishable from a legitimate one)
+            decoy[k] = gen_value(rng, typ, "z", used, 1 + rng.below(3) if typ.startswith("list") else None)
     case["decoy"] = decoy
     case["other_profile"] = other
     case["unknown_profile"] = rng.pick(["nope", "development", "staging", "stagingeu", "pro", "devx", ""])
@@ -161,7 +180,7 @@ def make_case(rng, idx, variant, assign, profile_mode, dir_mode, exhaustive=Fals
     noise = {}
     if rng.chance(1, 2):
         for k, typ in KEYS:
-            if rng.chance(1, 2):
+            if rng.chance(1, 2) and not typ.startswith("list"):
                 noise[k] = gen_value(rng, typ, "n", used)
     case["noise"] = noise
     return case
@@ -190,14 +209,14 @@ def materialise(case, root):
         os.makedirs(d, exist_ok=True)
         if base_tree:
             with open(os.path.join(d, "base.yml"), "w") as f:
-                f.write(to_yaml(base_tree) + "\n")
+                f.write(to_yaml(base_tree, 0, case.get("block_lists", False)) + "\n")
         if prof_tree:
             with open(os.path.join(d, profile + ".yml"), "w") as f:
-                f.write(to_yaml(prof_tree) + "\n")
+                f.write(to_yaml(prof_tree, 0, case.get("block_lists", False)) + "\n")
         for name, tree in (extra or {}).items():
             if tree:
                 with open(os.path.join(d, name + ".yml"), "w") as f:
-                    f.write(to_yaml(tree) + "\n")
+                    f.write(to_yaml(tree, 0, case.get("block_lists", False)) + "\n")
 
     extra = {}
     if pm == "explicit_over_env":
@@ -323,8 +342,18 @@ def file_missing_class(case):
 
 
 def origin_of(case, key, got):
+    if key in LIST_KEYS and isinstance(got, list):
+        v = case["vals"][key]
+        b, p = v.get("base"), v.get("profile")
+        if b and p:  # both non-empty: a merge of the two is distinguishable from either
+            if got == b + p:
+                return "concatenation_of_base_and_profile"
+            if got == p + b:
+                return "concatenation_of_profile_and_base"
+            if got and set(got) <= set(b) | set(p) and not (set(got) <= set(b) or set(got) <= set(p)):
+                return "mix_of_base_and_profile"
     for s in SRC:
-        if case["vals"][key].get(s) == got:
+        if s in case["vals"][key] and case["vals"][key][s] == got:
             return s
     if key in case["decoy"] and case["decoy"][key] == got:
         return "decoy_file"
@@ -454,7 +483,8 @@ def generate_cases(seed, tier):
     for a in subsets:
         for b in subsets:
             for c in subsets:
-                assign = {"top": a, "server.port": b, "db.pool_size": c,
+                assign = {"tags": frozenset(["base"]), "server.allowed_origins": frozenset(["profile", "base"]),
+                          "top": a, "server.port": b, "db.pool_size": c,
                           # fillers keep both files non-empty and the required keys defined
                           "db.name": frozenset(["base"]), "db.timeout_ms": frozenset(["profile", "base"]),
                           "workers": frozenset(["base"]), "server.host": frozenset(["profile"]),
@@ -466,14 +496,38 @@ def generate_cases(seed, tier):
                 i += 1
     n_ex = len(cases)
     # (2) every single key x 8 subsets with the other keys in base only (24+ small cases, all variants)
-    for k, _ in KEYS:
+    for k, typ in KEYS:
         for s in subsets:
+            if typ.startswith("list") and "env" in s:
+                continue
             assign = {kk: frozenset(["base"]) for kk, _ in KEYS}
             assign["db.timeout_ms"] = frozenset(["base", "profile"])
             assign[k] = s
             cases.append(make_case(rng, len(cases), rng.pick(VARIANTS), assign, rng.pick(PROFILE_MODES_OK),
                                    rng.pick(normal_dm), exhaustive=True))
-    # (3) random: all 8 keys, random subsets, all modes incl. error modes and split directories
+    # (2b) list-valued keys, exhaustively: each list key x every subset of {profile, base} x every pair of
+    # lengths 0..3 (so: empty profile list over a non-empty base list, and vice versa), with and without
+    # environment overrides of *other* keys present.
+    n_list_ex = 0
+    file_subsets = [frozenset(), frozenset(["base"]), frozenset(["profile"]), frozenset(["profile", "base"])]
+    for k in LIST_KEYS:
+        for fs in file_subsets:
+            for lp in (range(4) if "profile" in fs else [None]):
+                for lb in (range(4) if "base" in fs else [None]):
+                    for with_env in (False, True):
+                        assign = {kk: frozenset(["base"]) for kk, _ in KEYS}
+                        assign["db.timeout_ms"] = frozenset(["base", "profile"])
+                        if with_env:
+                            assign["top"] = frozenset(["env", "base"])
+                            assign["server.port"] = frozenset(["env", "profile", "base"])
+                            assign["server.host"] = frozenset(["env"])
+                        assign[k] = fs
+                        variant = VARIANTS[n_list_ex % 3]
+                        cases.append(make_case(rng, len(cases), variant, assign, PROFILE_MODES_OK[(n_list_ex // 3) % 4],
+                                               normal_dm[(n_list_ex // 12) % len(normal_dm)], exhaustive=True,
+                                               list_lens={k: {"profile": lp, "base": lb}}))
+                        n_list_ex += 1
+    # (3) random: all keys, random subsets, all modes incl. error modes and split directories
     n_random = 150 if tier == "quick" else 40000
     for _ in range(n_random):
         assign = {}
@@ -537,6 +591,7 @@ def run(ctx):
     by_variant, by_pm, by_dm = {}, {}, {}
     subset_seen = {}
     decisions = {"env>profile": 0, "env>base": 0, "profile>base": 0}
+    list_decisions = {}
     missing_file = {"profile_ok": 0, "profile_err": 0, "base_ok": 0, "base_err": 0}
     expected_err = {"no_profile": 0, "unknown_profile": 0, "missing_required_key": 0}
     deny_unknown_with_px_profile_ok = 0
@@ -560,6 +615,10 @@ def run(ctx):
         for (k, winner, losers) in obs.get("decisions", []):
             for l in losers:
                 decisions["%s>%s" % (winner, l)] += 1
+            if k in LIST_KEYS:  # a list defined in both files came back as exactly the profile's list
+                lp, lb = len(case["vals"][k]["profile"]), len(case["vals"][k]["base"])
+                cls = "profile_len%d_over_base_len%d" % (lp, lb)
+                list_decisions[cls] = list_decisions.get(cls, 0) + 1
         for s in obs.get("missing_file_ok", []):
             missing_file[s + "_ok"] += 1
         for s in obs.get("missing_file_err", []):
@@ -589,16 +648,21 @@ def run(ctx):
     coverage = {
         "evaluations": evaluations,
         "distinct_nontrivial": len(distinct),
-        "rule": "one `cfgload` subprocess per case; a case assigns each of the 8 keys (3 nesting depths, 5 types) to a "
-                "subset of {env, profile file, base file} with pairwise distinct values, picks a struct variant "
+        "rule": "one `cfgload` subprocess per case; a case assigns each of the 8 scalar keys (3 nesting depths, 5 types) to a "
+                "subset of {env, profile file, base file} and each of the 2 list-valued keys (top-level `tags`, nested "
+                "`server.allowed_origins`, 0..3 elements, flow or block YAML) to a subset of {profile file, base file}, "
+                "with pairwise distinct tokens, picks a struct variant "
                 "(deny_unknown_fields / plain / optional+defaults), a profile selection mode and a directory mode; "
                 "non-trivial = at least one key is defined by >= 2 sources (a precedence decision is observed) or the "
                 "documented outcome is an error; distinct = (variant, per-key subsets, profile mode, dir mode)",
         "exhaustive": {"keys": ["top", "server.port", "db.pool_size"], "subsets_per_key": 8,
                        "joint_assignments": n_ex, "complete": n_ex == 512,
-                       "single_key_x_subset_cases": 8 * len(KEYS)},
+                       "single_key_x_subset_cases": 8 * (len(KEYS) - len(LIST_KEYS)) + 4 * len(LIST_KEYS),
+                       "list_keys": LIST_KEYS,
+                       "list_key_x_file_subset_x_lengths_0_3_x_env_overrides_cases": 2 * 25 * len(LIST_KEYS)},
         "outcomes": counters,
         "precedence_decisions_observed": decisions,
+        "list_precedence_decisions_observed": list_decisions,
         "subset_occurrences": subset_seen,
         "by_variant": by_variant, "by_profile_mode": by_pm, "by_dir_mode": by_dm,
         "expected_error_cases": expected_err,
@@ -608,7 +672,8 @@ def run(ctx):
         "samples": samples,
     }
     ctx.finish(coverage, assumptions=[
-        "the oracle is the documented rule only: value(key) = first of env, profile file, base file that defines it",
+        "the oracle is the documented rule only: value(key) = first of env, profile file, base file that defines it; "
+        "a list is one value (the winning source's list, element for element), never a concatenation or union",
         "values are plain alphanumeric tokens / integers, so figment's env value syntax and YAML scalar typing are not under test",
         "the child's environment is built from scratch (no inherited PX_* variables)",
         "a non-existent profile/base *file* is not an error per the rustdoc (silent): only 'no panic; if it loads, "
